@@ -26,3 +26,8 @@ package worker
 //@ func (*Worker).GetOutput
 //@   trusted channel hand-off from the worker goroutine (outside the subset)
 //@   requires[C13,C18] worker-started: w != nil && w.started
+
+// The worker goroutine runs the task of its operator (aggregate.workerTask, the unary negation): engine
+// code over vectors that satisfy the stream contract; no storage callback runs here.
+//@ func (*Worker).start
+//@   trusted assumed not to let a panic escape: the tasks are engine code whose index safety is proved under the stream contract (aggregate tables, unary negation)
